@@ -9,7 +9,7 @@ from ..shrink import world_candidates
 
 np = sut.np
 ID = "C17"
-RUNS = {"quick": 5000, "thorough": 150000}
+RUNS = {"quick": 6500, "thorough": 150000}
 BUDGET = {"quick": 50, "thorough": 800}
 CHUNK = 150
 DET_EVERY = 100
